@@ -658,7 +658,7 @@ def run(ctx):
     replay_corpus(ctx, graph_cases, order_cases)
 
     # (a) _find_cycles directly
-    n_graphs = 20000 if ctx.thorough() else 3000
+    n_graphs = 20000 if ctx.thorough() else 2000
     for i in range(n_graphs):
         g, shape = random_graph(ctx.rng)
         c = graph_case(ctx, g, "random-graph:%s:%d" % (shape, i), dict(kind="random-graph", index=i))
@@ -672,7 +672,7 @@ def run(ctx):
 
     phase("random-graphs")
     # (b) the ordering function directly
-    n_ord = 12000 if ctx.thorough() else 2500
+    n_ord = 12000 if ctx.thorough() else 1500
     for i in range(n_ord):
         names, deps, params, mode = random_ordering_input(ctx.rng)
         add_ordering_case(ctx, names, deps, params, mode, order_cases)
@@ -693,7 +693,7 @@ def run(ctx):
     phase("testdata-modules")
     # model side
     runner = fw.CoqCases(ctx, "graphs", HEADER, "run_graph", "run_graph_eqb", "graph",
-                         "(bool * bool * tres (list (list N)))", shard=250)
+                         "(bool * bool * tres (list (list N)))", shard=500)
     bad = runner.run(graph_cases)
     ctx.obligation("correspondence: %d graphs — _find_cycles = Tarjan mirror (components) and verdict = acyclic_dec"
                    % len(graph_cases), not bad)
@@ -706,7 +706,7 @@ def run(ctx):
                            graph=[[k, r] for k, r in obj["rows"]], implementation=obj["py"], independent_sccs=obj["ind"],
                            model_outputs=out[:2000]), found_input=False)
     phase("coq-graphs")
-    runner = fw.CoqCases(ctx, "orders", HEADER, "run_order", "ores_eqb", "(graph * list N)", "ores", shard=400)
+    runner = fw.CoqCases(ctx, "orders", HEADER, "run_order", "ores_eqb", "(graph * list N)", "ores", shard=500)
     bad = runner.run(order_cases)
     ctx.obligation("correspondence: %d field lists — implementation's order = Order.dep_order" % len(order_cases), not bad)
     for idx, out in bad[:5]:
